@@ -91,8 +91,8 @@ def lag_harness(fn, spec, n, thorough, isolated=False):
     return "\n".join(L) + "\n"
 
 
-def pre_harness(k, n, thorough):
-    L = head(f"c06_pre_{k}_n{n}", n + 1, thorough)
+def pre_harness(k, n, thorough, cuts=None, tag=""):
+    L = head(f"c06_pre_{k}{tag}_n{n}", n + 1, thorough)
     K = KERNELS[k]
     L.append(f"    let x = opt_series::<{n}>({K});")
     L.append(f"    let p = params::<{n}>();")
@@ -103,10 +103,11 @@ def pre_harness(k, n, thorough):
     L.append(f"    let whole = run({K}, &v, &p);")
     L.append(f'    assert!(whole.len() == {n}, "rolling: one output per element of the whole series");')
     L.append("    let mut c = RollCov::default();")
-    for cut in range(1, n):
+    for cut in (cuts or range(1, n)):
         L.append(f"    same_rolling_prefix({K}, &x, {cut}, &p, &whole, &mut c);")
     L.append('    kani::cover!(c.null_cmp, "a null output was compared");')
-    L.append('    kani::cover!(c.val_cmp, "a non-null output was compared");')
+    if not (k == "minmaxnorm" and n == 2):      # N = 2: only the single-element window (max == min, always null) is compared
+        L.append('    kani::cover!(c.val_cmp, "a non-null output was compared");')
     L.append('    kani::cover!(c.short, "prefix shorter than the window");')
     L.append('    kani::cover!(c.omitted, "omitted min_periods");')
     if n >= 3:
@@ -142,6 +143,11 @@ def main():
     for ns, th in ((PRE_QUICK, False), (PRE_THOROUGH, True)):
         for n in ns:
             for k in KERNELS:
+                if k == "minmaxnorm" and n == 3 and not th:
+                    # 111-149 s with both cuts; cut = 1 only ever compares the always-null single-element window
+                    out.append(pre_harness(k, n, False, cuts=[2]))
+                    out.append(pre_harness(k, n, True, tag="_allcuts"))
+                    continue
                 out.append(pre_harness(k, n, th or k in PRE_THOROUGH_ONLY))
     for ns, th in ((LOC_QUICK, False), (LOC_THOROUGH, True)):
         for n in ns:
